@@ -229,6 +229,12 @@ Error BaseRAPass::run_on_function(Arena& arena, FuncNode* func, [[maybe_unused]]
     }
   }
 
+  // Nodes must not keep data of this pass once its arena is reset - label nodes reference their blocks, and if the
+  // allocation failed instruction nodes still reference their `RAInst` data.
+  for (BaseNode* node = func; node && node != _stop; node = node->next()) {
+    node->reset_pass_data();
+  }
+
   // Reset all core structures and everything that depends on the passed `Arena`.
   RAPass_cleanup_after_function(this);
 
